@@ -445,9 +445,55 @@ def r8_4(F, R):
             R.ok("R8.4", inst, "chain: %s" % " -> ".join(chain), loc, how="iterator-shape")
 
 
+def r8_5(F, R):
+    """IterAll (the iterator the command map is serialised through): an item fetched from the backing container is looked up in key_to_val and
+    then either yielded or skipped by fetching the next one."""
+    from ..dataflow import Flow
+    from ..cfg import find_path, is_return
+    R.rule("R8.5", "GroupingContainer::iter_all yields every globally defined entry: in IterAll::next, after an entry of the backing container has "
+                   "been looked up in key_to_val, every path to a return either builds Item::Value from it or fetches the next entry first "
+                   "(no arm falls through to the group phase while visible entries remain)")
+    fns = [f for f in F.fns.values() if "groupingmap::IterAll" in f.name and f.name.endswith("::next")]
+    if len(fns) != 1:
+        raise AnchorError("R8.5: IterAll::next: %d matches" % len(fns))
+    fn = fns[0]
+    flow = Flow(fn)
+    lookups = []
+    for bi, t in fn.calls():
+        n = strip_generics(callee_name(t) or "")
+        if n.endswith("HashMap::get") and t["args"] and ("field", "key_to_val") in flow.operand_origins(t["args"][0]):
+            lookups.append((bi, t))
+    if not lookups:
+        raise AnchorError("R8.5: no key_to_val lookup in IterAll::next")
+    for bi, t in lookups:
+        # the calls the looked-up key derives from = the fetch of the current entry
+        og = flow.operand_origins(t["args"][1])
+        fetch_names = {v for k, v in og if k == "call" and v}
+        fetch = {b for b, c in fn.calls() if (callee_name(c) in fetch_names) and b != bi}
+        if not fetch:
+            raise AnchorError("R8.5: cannot find the call fetching the entry looked up at %s" % fn.loc(t))
+        yields = set()
+        for b2, blk in enumerate(fn.blocks):
+            for st in blk["s"]:
+                if st["k"] == "=" and st["rv"]["k"] == "agg" and st["rv"].get("ak") == "adt" and st["rv"]["adt"].endswith("groupingmap::Item") and st["rv"]["variant"] == "Value":
+                    yields.add(b2)
+        tgt = t.get("t")
+        if tgt is None or not yields:
+            raise AnchorError("R8.5: lookup without normal target or no Item::Value yield in IterAll::next")
+        path = find_path(fn, [tgt], lambda b: is_return(fn, b), blocked=fetch | yields)
+        inst = "IterAll::next/lookup"
+        if path:
+            from .common import fmt_path
+            R.violation("R8.5", inst, "IterAll::next can return without yielding the entry it looked up and without fetching the next one (%s): the remaining "
+                        "global definitions are never serialised, so commands vanish after a checkpoint taken inside a group" % fmt_path(fn, path), fn.loc(t))
+        else:
+            R.ok("R8.5", inst, "yield blocks %d, fetch blocks %d; no bypass" % (len(yields), len(fetch)), fn.loc(t), how="path")
+
+
 def run(F, R, tier):
     r8_1(F, R, tier)
     r8_4(F, R)
+    r8_5(F, R)
     r8_2(F, R)
     r8_3(F, R)
     return ("Static analysis over MIR facts (including derive(Serialize/Deserialize) output, analysed as ordinary MIR). Decides that every field "
